@@ -9,7 +9,7 @@ COMMON_ASSUME = [
 PROPS = {
     "C17": {
         "stages": [{"bin": "err"}],
-        "rule": "decision table written from the statement: for every fallible public routine (7 single-input summary statistics + entropy on f64/f32/i32; min/max/argmin/argmax; 8 weighted routines; 10 deviation measures on f64 and i64; kl_divergence / cross_entropy; 5 quantile entry points on i32/N64/f64; pearson_correlation; cov; 5 strategies + GridBuilder) x first-input shapes {(4), (2,3), (3,1,2), (1), (0), (0,3), (3,0), (0,0), (2,0,3)} (+9 more in thorough) x second argument {same shape, same element count other shape, broadcast-compatible, one axis longer, different rank} in two layouts / per-axis weights of right and wrong length on every axis x q lists {valid, single, empty list, one < 0, one > 1, several invalid (first offending one carried), invalid on an empty axis, 1+2^-52, -0.0, +inf} x 3 layouts (8 thorough): expected cell in {Ok, EmptyInput, ShapeMismatch(first, second), InvalidQuantile(q)} or unconstrained (observed and counted, never judged: empty first input AND mismatching second argument for the sum-type routines; cov with zero observations and ddof >= 0; constant data for strategies; a zero-column matrix for GridBuilder). The rank-0 shape [] (one element) is one of the first shapes. Second operands of another rank include shapes that are a prefix of / prefixed by the first shape (trailing unit axis appended, last axis dropped). Weight VALUES are varied too (all zero, +1/-1 with zero total, all one): a non-empty input never answers with an error. The table is enumerated completely; each cell is one distinct case (counted exactly); a panic in a constrained cell is a violation; weighted_sum / weighted_sum_axis of empty inputs must be zero.",
+        "rule": "decision table written from the statement: for every fallible public routine (7 single-input summary statistics + entropy on f64/f32/i32; min/max/argmin/argmax; 8 weighted routines; 10 deviation measures on f64 and i64; kl_divergence / cross_entropy; 5 quantile entry points on i32/N64/f64; pearson_correlation; cov; 5 strategies + GridBuilder) x first-input shapes {(4), (2,3), (3,1,2), (1), (0), (0,3), (3,0), (0,0), (2,0,3)} (+9 more in thorough) x second argument {same shape, same element count other shape, broadcast-compatible, one axis longer, different rank} in two layouts / per-axis weights of right and wrong length on every axis x q lists {valid, single, empty list, one < 0, one > 1, several invalid (first offending one carried), invalid on an empty axis, 1+2^-52, -0.0, +inf} x 3 layouts (8 thorough): expected cell in {Ok, EmptyInput, ShapeMismatch(first, second), InvalidQuantile(q)} or unconstrained (observed and counted, never judged: empty first input AND mismatching second argument for the sum-type routines; cov with zero observations and ddof >= 0; constant data for strategies; a zero-column matrix for GridBuilder). The rank-0 shape [] (one element) is one of the first shapes; all-NaN and all-None inputs for the skip-NaN quantile (the request is validated first); 4 layouts in the quick tier (C, contiguous F, stepped F, permuted), 8 in thorough. Second operands of another rank include shapes that are a prefix of / prefixed by the first shape (trailing unit axis appended, last axis dropped). Weight VALUES are varied too (all zero, +1/-1 with zero total, all one): a non-empty input never answers with an error. The table is enumerated completely; each cell is one distinct case (counted exactly); a panic in a constrained cell is a violation; weighted_sum / weighted_sum_axis of empty inputs must be zero.",
         "exhaustive": True,
         "exhaustive_bound": {"quick": "the full table for 9 first-input shapes x 3 layouts", "thorough": "18 first-input shapes x 8 layouts"},
         "assumptions": COMMON_ASSUME + ["combinations the statement does not decide are reported as unconstrained, not judged"],
@@ -48,13 +48,13 @@ PROPS = {
     },
     "C09": {
         "stages": [{"kind": "oracle", "bin": "num"}],
-        "rule": "integers (i8, i16, i32, i64, i128, num-bigint BigInt; in-process): count_eq / count_neq / sq_l2_dist / l1_dist / linf_dist equal the exact i128 values (cases whose exact distance does not fit the type are skipped and counted), exactly symmetric, zero for identical arguments, derived measures equal the documented f64 function of the exact distance; operands in 4 memory layouts each (C, F, reversed, stepped). Floats (f32, f64; logged, judged offline): sq_l2 / l1 within gamma_k * sum|terms|, linf EXACTLY the max of the correctly rounded |a-b|, l2 / mae / mse / rmse within 2 ulp of the documented function of the RETURNED distance, PSNR within 8u|r| + 40u/ln10, symmetry with swapped operands, counts exact, also for pairs carrying NaNs (NaN equals nothing) and for an array compared WITH ITSELF (same buffer); every pairing of 8 zoo layouts for the two operands and 5 ownership pairings (view/view, owned/view, ArcArray/view, CowArray/owned, ViewMut/ArcArray); shapes of 1..4 dims. distinct = hash of (type, shape, layout pair, ownership, data).",
+        "rule": "integers (i8, i16, i32, i64, i128, num-bigint BigInt; in-process): count_eq / count_neq / sq_l2_dist / l1_dist / linf_dist equal the exact i128 values (cases whose exact distance does not fit the type are skipped and counted), exactly symmetric, zero for identical arguments, derived measures equal the documented f64 function of the exact distance; operands in 4 memory layouts each (C, F, reversed, stepped). Floats (f32, f64; logged, judged offline): sq_l2 / l1 within gamma_k * sum|terms|, linf EXACTLY the max of the correctly rounded |a-b|, l2 / mae / mse / rmse within 2 ulp of the documented function of the RETURNED distance, PSNR within 8u|r| + 40u/ln10, symmetry with swapped operands, counts exact, also for pairs carrying NaNs (NaN equals nothing) and for an array compared WITH ITSELF (same buffer); every pairing of 8 zoo layouts for the two operands (a fifth of the pairs share ONE non-contiguous layout with a unit inner stride: a window of columns, every other row) and 5 ownership pairings (view/view, owned/view, ArcArray/view, CowArray/owned, ViewMut/ArcArray); shapes of 1..4 dims. distinct = hash of (type, shape, layout pair, ownership, data).",
         "exhaustive": False,
         "assumptions": COMMON_ASSUME,
     },
     "C10": {
         "stages": [{"kind": "oracle", "bin": "num"}],
-        "rule": "entropy / cross_entropy / kl_divergence on f32 and f64 arrays of 1..3 dims (p and q in different zoo layouts, q owned or view) are logged and judged offline: terms -x ln x, -p ln q, -p ln(q/p) in 60-digit decimals, zero-p terms exactly zero (even against NaN in q), tol = 4[(n+8)u sum|t_i| + 4u sum|p_i|]; q = 0 with p > 0 => +inf; NaN in a contributing term => NaN; KL(p,p) == 0 exactly; |H(p,q) - H(p) - KL(p,q)| <= sum of tolerances; KL >= P ln(P/Q) - tol and H <= -X ln(X/n) + tol (log-sum inequality). Values in [1e-30, 1e3] (f32: [1e-20, 1e3]), zeros in p / q / both, normalised and unnormalised, q ~ p; positive SUBNORMAL p_i against q_i = 0 (must still give +inf); quotients q_i/p_i outside the exponent range (known finding F9, classified by the oracle's predicate). distinct = hash of (type, shape, layouts, p bits, q bits).",
+        "rule": "entropy / cross_entropy / kl_divergence on f32 and f64 arrays of 1..3 dims (p and q in different zoo layouts, q owned or view) are logged and judged offline: terms -x ln x, -p ln q, -p ln(q/p) in 60-digit decimals, zero-p terms exactly zero (even against NaN in q), tol = 4[(n+8)u sum|t_i| + 4u sum|p_i|]; q = 0 with p > 0 => +inf; NaN in a contributing term => NaN; KL(p,p) == 0 exactly; |H(p,q) - H(p) - KL(p,q)| <= sum of tolerances; KL >= P ln(P/Q) - tol and H <= -X ln(X/n) + tol (log-sum inequality). Values in [1e-30, 1e3] (f32: [1e-20, 1e3]), zeros in p / q / both, normalised and unnormalised, q ~ p; positive SUBNORMAL p_i against q_i = 0 (must still give +inf); quotients q_i/p_i outside the exponent range and quotients that are subnormal but not zero (known finding F9, classified by the oracle's predicate: a finite inaccurate answer there is F9; an INFINITE answer is F9 only when a quotient really rounds to zero or overflows). distinct = hash of (type, shape, layouts, p bits, q bits).",
         "exhaustive": False,
         "assumptions": COMMON_ASSUME + ["ln of the platform libm is accurate to about 1 ulp (covered by the safety factor 4)"],
     },
@@ -73,7 +73,7 @@ PROPS = {
     },
     "C13": {
         "stages": [{"bin": "hist"}],
-        "rule": "exhaustive: ALL sequences of length 0..5 (6 thorough) over {0..5} as edge collections (i32 with doubled values so half-way probes are integers, N64 genuinely, Tracked keys in thorough), built via From<Vec> and From<Array1>, x probes {-1, -1/2, 0, 1/2, ..., 6}: Edges::{len,is_empty,iter,index,as_array_view,indices_of}, Bins::{len,is_empty,index,index_of,range_of} against a BTreeSet / linear-scan model and against each other (range_of(v) == index(index_of(v))). Each edge sequence of length >= 2 is one distinct non-trivial case (counted exactly). Every probe list is asked ascending, descending and in two scrambled orders on the SAME object (a lookup must not depend on earlier lookups). Random part: grids of 1..3 axes: ndim/shape/projections, Grid::index for ALL index tuples, Grid::index_of for points inside every cell and random points, points handed over as owned, reversed and stepped views; edge collections of 5..200 edges with EVERY ordered pair of probes (below / on edges / strictly inside bins / above) on one object; grids whose number of cells does not fit a machine word (40..100 axes of 2..3 bins, 4 axes of 65 536 bins, 5..8 axes of 2^9..2^14 bins): shape, index and index_of per axis.",
+        "rule": "exhaustive: ALL sequences of length 0..5 (6 thorough) over {0..5} as edge collections (i32 with doubled values so half-way probes are integers, N64 genuinely, Tracked keys in thorough), built via From<Vec> and From<Array1>, x probes {-1, -1/2, 0, 1/2, ..., 6}: Edges::{len,is_empty,iter,index,as_array_view,indices_of}, Bins::{len,is_empty,index,index_of,range_of} against a BTreeSet / linear-scan model and against each other (range_of(v) == index(index_of(v))). Each edge sequence of length >= 2 is one distinct non-trivial case (counted exactly). Every probe list is asked ascending, descending and in two scrambled orders on the SAME object (a lookup must not depend on earlier lookups). Random part: grids of 1..3 axes: ndim/shape/projections, Grid::index for ALL index tuples, Grid::index_of for points inside every cell and random points, points handed over as owned, reversed and stepped views; edge collections of 5..200 edges with EVERY ordered pair of probes (below / on edges / strictly inside bins / above) on one object; long edge collections increasing / decreasing / shuffled with repeated values next to their twins; grids whose number of cells does not fit a machine word (40..100 axes of 2..3 bins, 4 axes of 65 536 bins, 5..8 axes of 2^9..2^14 bins): shape, index and index_of per axis.",
         "exhaustive": True,
         "exhaustive_bound": {"quick": "all edge sequences of length <= 5 over 6 values x 15 probes", "thorough": "length <= 6"},
         "assumptions": COMMON_ASSUME + ["only comparisons are used by Edges/Bins (stated in the property), so a 6-value alphabet covers all order patterns up to the length bound"],
@@ -101,7 +101,7 @@ PROPS = {
         "stages": [{"bin": "mem"},
                    {"kind": "sanitizer", "tool": "asan", "tiers": ["quick", "thorough"]},
                    {"kind": "sanitizer", "tool": "miri", "tiers": ["thorough"]}],
-        "rule": "reference = the statement's own definition: the harness deletes the missing values from the logical snapshot itself and (a) scans the rest independently, (b) calls the crate's plain routine on an owned contiguous copy of the filtered data. Operations: min/max_skipnan, argmin/argmax_skipnan (index designates a position of the original array holding the value; EmptyInput iff nothing is left), fold_skipnan / visit_skipnan / indexed_fold_skipnan (multiset of (index,) value == filtered multiset), fold_axis_skipnan and map_axis_skipnan_mut (per lane, each lane exactly once, result at the lane's logical index), quantile_axis_skipnan_mut vs quantile_mut on the filtered lane (all 5 strategies, q on / between indices). Requests also on the rank grid j/(m-1), (j+.5)/(m-1) of one lane's REMAINING count m; arrays without lanes (a zero-length axis other than the reduced one). Types f32, f64, Option<i32,u8,i64,N64>; masks none / all / first-only / last-only / random / ties; 1..3 dims, every axis, zoo layouts, 5 pivot policies. distinct = hash of (type, shape, axis, layout, data bits); non-trivial = >= 2 elements.",
+        "rule": "reference = the statement's own definition: the harness deletes the missing values from the logical snapshot itself and (a) scans the rest independently, (b) calls the crate's plain routine on an owned contiguous copy of the filtered data. Operations: min/max_skipnan, argmin/argmax_skipnan (index designates a position of the original array holding the value; EmptyInput iff nothing is left), fold_skipnan / visit_skipnan / indexed_fold_skipnan (multiset of (index,) value == filtered multiset), fold_axis_skipnan and map_axis_skipnan_mut (per lane, each lane exactly once, result at the lane's logical index), quantile_axis_skipnan_mut vs quantile_mut on the filtered lane (all 5 strategies, q on / between indices). The per-axis fold is also compared as a SEQUENCE (order-sensitive closure: increasing index along the axis, like the plain fold_axis). Requests also on the rank grid j/(m-1), (j+.5)/(m-1) of one lane's REMAINING count m; arrays without lanes (a zero-length axis other than the reduced one). Types f32, f64, Option<i32,u8,i64,N64>; masks none / all / first-only / last-only / random / ties; 1..3 dims, every axis, zoo layouts, 5 pivot policies. distinct = hash of (type, shape, axis, layout, data bits); non-trivial = >= 2 elements.",
         "exhaustive": False,
         "assumptions": COMMON_ASSUME,
     },
@@ -132,7 +132,7 @@ PROPS = {
     },
     "C15": {
         "stages": [{"bin": "sel"}],
-        "rule": "exhaustive part: every weak-order pattern of length 1..L (L=7 quick, 8 thorough) x every pivot position x strides {1,2,3,-1,-2} (strided up to length 6) inside a guarded parent buffer; each (pattern, position, stride) is one distinct case, counted exactly. Random part: lengths up to 500; other element types: i32, u8, N64, the NotNone<i32> wrapper obtained from Option<i32>::remove_nan_mut,, zero-sized elements, a 48-byte element ordered by one field (plain and strided), an element that owns a resource (Drop, not Copy; with the element lifecycle monitor), i32 in a shared ArcArray with a second live handle and in a CowArray borrowing a view (the other handle / the lender must stay unchanged); distinct = hash of (keys, position, layout). Oracle: rank = #{x < pivot}, position k holds the pivot value, strict left side, >= right side, multiset by id, guards.",
+        "rule": "exhaustive part: every weak-order pattern of length 1..L (L=7 quick, 8 thorough) x every pivot position x strides {1,2,3,-1,-2} (strided up to length 6) inside a guarded parent buffer; each (pattern, position, stride) is one distinct case, counted exactly. Random part: lengths up to 500, and 513..2100 (sorted, reversed, rotated, one element out of place included); other element types: i32, u8, N64, the NotNone<i32> wrapper obtained from Option<i32>::remove_nan_mut,, zero-sized elements, a 48-byte element ordered by one field (plain and strided), an element that owns a resource (Drop, not Copy; with the element lifecycle monitor), i32 in a shared ArcArray with a second live handle and in a CowArray borrowing a view (the other handle / the lender must stay unchanged); distinct = hash of (keys, position, layout). Oracle: rank = #{x < pivot}, position k holds the pivot value, strict left side, >= right side, multiset by id, guards.",
         "exhaustive": True,
         "exhaustive_bound": {"quick": "patterns n<=7", "thorough": "patterns n<=8"},
         "assumptions": COMMON_ASSUME,
